@@ -640,13 +640,13 @@ func dominatesBlock(a, b *ssa.BasicBlock) bool {
 	if a == nil || b == nil {
 		return false
 	}
-	return a == b || a.Dominates(b)
+	return a == b || blockDominates(a, b)
 }
 
 // loopHeadOf: the outermost dominator of b that is in the same cycle.
 func loopHeadOf(b *ssa.BasicBlock) *ssa.BasicBlock {
 	head := b
-	for d := b.Idom(); d != nil; d = d.Idom() {
+	for d := idomOf(b); d != nil; d = idomOf(d) {
 		if inLoop(d) && reaches(b, d) && reaches(d, b) {
 			head = d
 		}
@@ -1354,7 +1354,7 @@ func cellNonNilAt(fn *ssa.Function, cell ssa.Value, b *ssa.BasicBlock) bool {
 		// no store to the cell in the region dominated by the edge target, up to b
 		stored := false
 		for _, x := range fn.Blocks {
-			if x == tgt || tgt.Dominates(x) {
+			if x == tgt || blockDominates(tgt, x) {
 				for _, in := range x.Instrs {
 					if st, ok := in.(*ssa.Store); ok && st.Addr == cell {
 						// a store of a fresh non-nil error keeps it non-nil
